@@ -137,7 +137,7 @@ def runner(k, repo, muts, outdir):
             sh(f"git -C {wt} checkout -q -- .")
             diff = apply(repo, wt, c)
             rec = dict(c, diff=diff)
-            rc, out = sh(f"cd {wt} && PYTHONPATH={wt} /venv/bin/python -m pytest -q -x -p no:cacheprovider --timeout=120 --continue-on-collection-errors 2>&1 | tail -1", timeout=600)
+            rc, out = sh(f"cd {wt} && PYTHONPATH={wt} /venv/bin/python -m pytest -q -p no:cacheprovider --timeout=120 --continue-on-collection-errors 2>&1 | tail -1", timeout=600)
             rec["tests"] = out.strip()[-80:]
             if "352 passed" not in out:
                 rec["verdict"] = "killed-by-tests"
